@@ -980,6 +980,59 @@ def learn_search(vs):
     return None
 
 
+def survive_search(vs):
+    """Re-find 'a commit loses another learned entry' natively: learned choices are made through the API (type, commit), for words that are
+    prefixes / extensions of each other and unrelated ones, then one more word is committed and every earlier entry must still be stored
+    and still be preselected."""
+    keys = char_keys()
+    cfg = {"layout": "avro_phonetic", "database": REPO + "/data", "opts": {"phonetic_suggestion": True}}
+    groups = [["bar", "bari", "bar"], ["ami", "amar", "ami"], ["sesh", "kotha", "sesh"], ["kotha", "kothay", "kotha"], ["k", "kk", "k"], ["kori", "korim", "kori"]]
+    # pass 1: candidate lists
+    words = sorted(set(w for g in groups for w in g))
+    res = run_replay([{"steps": [{"op": "new", "config": cfg}] + [{"op": "key", "key": keys[ch], "sel": 0} for ch in w]} for w in words])
+    lists = {w: r["results"][-1].get("suggestion", {}).get("list", []) for w, r in zip(words, res)}
+    scs, meta = [], []
+    for g in groups:
+        w1, w2, w3 = g
+        l1, l2 = lists[w1], lists[w2]
+        if len(l1) < 2 or len(l2) < 2:
+            continue
+        for i1 in range(1, min(len(l1), 3)):
+            # prefer a choice of the longer word that begins with the shorter word's choice
+            c2 = [j for j in range(1, len(l2)) if l2[j].startswith(l1[i1])] + [j for j in range(1, min(len(l2), 3))]
+            for i2 in list(dict.fromkeys(c2))[:3]:
+                for i3 in (0, (i1 + 1) % len(l1)):
+                    steps = [{"op": "new", "config": cfg}]
+                    for w, idx in ((w1, i1), (w2, i2), (w3, i3)):
+                        steps += [{"op": "key", "key": keys[ch], "sel": 0} for ch in w]
+                        steps.append({"op": "commit", "index": idx})
+                    steps += [{"op": "key", "key": keys[ch], "sel": 0} for ch in w2]
+                    steps.append({"op": "get_state"})
+                    steps.append({"op": "read_user_file", "name": "phonetic-candidate-selection.json"})
+                    scs.append({"steps": steps})
+                    meta.append((g, i1, i2, i3, l2[i2]))
+    out = run_replay_parallel(scs)
+    for (g, i1, i2, i3, want), sc, r in zip(meta, scs, out):
+        rr = r["results"]
+        p = [x for x in rr if "panic" in x]
+        if p:
+            return sc, p[0], "learning %s panics: %s" % (g, p[0]["panic"]), None
+        last = rr[-3]
+        if "suggestion" not in last:
+            continue
+        l2 = last["suggestion"]["list"]
+        s2 = rr[-2]["state"]["prev_selection"]
+        try:
+            stored = json.loads(rr[-1].get("content") or "{}").get(g[1])
+        except ValueError:
+            stored = None
+        if stored != want or s2 >= len(l2) or l2[s2] != want:
+            what = "committed candidate %d of %r, candidate %d (%r) of %r, then candidate %d of %r again; typing %r now preselects %r and the store holds %r for it" % (
+                i1, g[0], i2, want, g[1], i3, g[2], g[1], l2[s2] if s2 < len(l2) else None, stored)
+            return sc, rr[-3:], what, "learned choice of another word lost by a commit"
+    return None
+
+
 def autocorrect_search(vs):
     """Re-find 'the auto-correct entry is not first' natively with a user auto-correct file (identity, overriding and plain entries)."""
     keys = char_keys()
@@ -1253,7 +1306,7 @@ def obl_learn(check, conv_table, thorough=False, budget_s=None):
     check.bounds["learn_roundtrip"] = dict(word="1%s symbolic letters/digits; 3 with suffix split points" % ("-2" if thorough else ""),
                                            wrappers=[s["pre"] + "W" + s["trail"] for s in shapes][:10], commit="any index other than the preselected one",
                                            data="0-1 dictionary word, emoji name present or absent, earlier learned entry any", options="English, smart quotes symbolic")
-    run_suggest_obligation(check, "learn_roundtrip", shapes, ["cover:learn"], confirmers={"learned_choice_is_preselected_next_time": learn_search}, budget_s=budget_s)
+    run_suggest_obligation(check, "learn_roundtrip", shapes, ["cover:learn"], confirmers={"learned_choice_is_preselected_next_time": learn_search, "other_learned_entries_survive_a_commit": survive_search}, budget_s=budget_s)
 
 
 # ------------------------------------------------------------------------- C03: suggestions off
